@@ -111,6 +111,18 @@ def check(P, rep):
         inv['roles'] = sorted(inv['roles'])
     for cn_ in P.crates:
         storage_classes(P, rep, 'C06.R1', cn_, {'Interfaces_Owner': 'instance', 'Interfaces_Operator': 'instance', 'GasCollector': 'instance', 'Interfaces_Migrating': 'instance'})
+    # R2: a role transfer really hands the role over: every success exit of a transfer entry is preceded by the write of the successor
+    nt = 0
+    for cn, en in P.all_entries():
+        role = {'transfer_ownership': OWNER, 'set_admin': OWNER, 'transfer_operatorship': OPERATOR}.get(en)
+        if role is None:
+            continue
+        g = P.graph(cn, en)
+        ws = [e for e in state_effects(g) if e.kind == 'sw' and key_variant(e.key)[0] == role and core(e.val) == g.P(1)]
+        nt += 1
+        rep.check(bool(ws) and g.success_needs([e.node for e in ws]), 'C06.R2', '%s::%s:installs-successor' % (cn, en),
+                  'every success exit of the role transfer is preceded by %s := the named successor' % role, entry_id(g))
+    rep.floor('role transfer entries', nt, 7)
     rep.floor('entry points analysed', n_entries, 90)
     rep.floor('protected admin effects found', n_prot, 25)
     # R3: gateway rotation path: delay guard or operator auth
